@@ -73,14 +73,164 @@ MutVariant(def) ==
        \cup (IF Len(def.variants) < 2 THEN {}
              ELSE {InMod([def EXCEPT !.variants[1] = def.variants[2], !.variants[2] = def.variants[1]], "vo")})
 
+CoreDefSet == {CoreDefs[i] : i \in 1..Len(CoreDefs)}
+
 NearMiss(def) ==
   MutRename(def) \cup MutSwap(def) \cup MutType(def) \cup MutCopy(def) \cup MutConstName(def)
   \cup MutRepr(def) \cup MutShape(def) \cup MutVariant(def)
 
 ---------------------------------------------------------------------------
+(* C17: wrongly declared zero-copy definitions.  From every valid zero-copy  *)
+(* definition: one field replaced by a type that is not zero-copy (vector,   *)
+(* string, boxed slice, deep struct, reference holder, option), repr(C)      *)
+(* dropped, or a conflicting attribute added.  `defence` says which layer    *)
+(* must reject the mutant: "macro" (attribute coherence panics of the        *)
+(* derive), "bound" (the field type is not ZeroCopy: the no-op               *)
+(* `test::<FieldTy>()` calls / the ZeroCopy bound of serialize_zero).        *)
+BadFieldTypes ==
+  << [tag |-> "vec", g |-> Vec(U8)], [tag |-> "string", g |-> StringT], [tag |-> "boxslice", g |-> BoxSlice(U8)],
+     [tag |-> "deep", g |-> Inst(D_DZ, <<>>, <<>>)], [tag |-> "refstr", g |-> [k |-> "staticstr"]],
+     [tag |-> "refslice", g |-> [k |-> "staticslice"]], [tag |-> "option", g |-> Option(U32)],
+     [tag |-> "rawptr", g |-> [k |-> "rawptr"]] >>
+WZField(def) ==
+  IF def.dk # "struct" \/ def.fields = <<>> THEN {}
+  ELSE {[def |-> InMod(SetField(def, i, [def.fields[i] EXCEPT !.g = BadFieldTypes[j].g]), "wz"),
+         tag |-> BadFieldTypes[j].tag \o NumS(i), defence |-> "bound"]
+        : i \in 1..Len(def.fields), j \in 1..Len(BadFieldTypes)}
+WZEnumField(def) ==
+  IF def.dk # "enum" THEN {}
+  ELSE {[def |-> InMod([def EXCEPT !.variants[i].fields[1].g = BadFieldTypes[j].g], "wz"),
+         tag |-> BadFieldTypes[j].tag \o "v" \o NumS(i), defence |-> "bound"]
+        : i \in {x \in 1..Len(def.variants) : def.variants[x].fields # <<>>}, j \in {1, 2, 5}}
+WZAttr(def) ==
+  {[def |-> InMod([def EXCEPT !.reprs = SelectSeq(def.reprs, LAMBDA r : r # "C")], "wz"), tag |-> "norepr", defence |-> "macro"],
+   [def |-> InMod([def EXCEPT !.da = TRUE], "wz"), tag |-> "both", defence |-> "macro"]}
+WrongZero(def) == IF def.zc THEN WZField(def) \cup WZEnumField(def) \cup WZAttr(def) ELSE {}
+AllWrongZero == UNION {WrongZero(d) : d \in CoreDefSet}
+
+\* contexts in which a hand-written "zero-copy" type with a pointer inside (kind "hw") can be serialized
+HwContexts ==
+  {HwT, Vec(HwT), BoxSlice(HwT), Slice(HwT), SerIter(HwT), Array(2, HwT), Array(0, HwT), Tuple(1, HwT), Tuple(2, HwT),
+   Option(HwT), Range("RangeTo", HwT), Vec(Range("RangeTo", HwT)), Vec(Tuple(1, HwT)), Vec(Array(1, HwT)),
+   G(HwT), G(Vec(HwT)), G(Tuple(2, HwT)), Vec(Vec(HwT)), Option(Vec(HwT))}
+
+---------------------------------------------------------------------------
+(* C05: the grammar of definitions the derive macro supports, enumerated.   *)
+(* Named / tuple / unit structs; unit / tuple / struct variants; type and    *)
+(* const parameters (with bounds, defaults, where-clauses); phantom          *)
+(* parameters; fields whose type *is* a parameter (ε-copied) and fields      *)
+(* whose type merely *mentions* one (fully copied); zero_copy / deep_copy /  *)
+(* repr attributes; nesting of previously defined types.                     *)
+\* field-type pool (generic forms).  1-5: no parameter; 6-11: parameter A; 12: parameter B; 13: const N
+FT(i) ==
+  CASE i = 1 -> U8 [] i = 2 -> U32 [] i = 3 -> StringT [] i = 4 -> Vec(U16) [] i = 5 -> Inst(D_ZPad, <<>>, <<>>)
+    [] i = 6 -> Param(1) [] i = 7 -> Vec(Param(1)) [] i = 8 -> Option(Param(1)) [] i = 9 -> Phantom(Param(1))
+    [] i = 10 -> Inst(D_G, <<Param(1)>>, <<>>) [] i = 11 -> Array(2, Param(1))
+    [] i = 12 -> Param(2) [] i = 13 -> CArray(1, U16) [] i = 14 -> Inst(D_DS, <<>>, <<>>) [] i = 15 -> Tuple(2, U32)
+    [] i = 16 -> BoolT
+ZcFT == {1, 2, 5, 9, 13, 15, 16}        \* usable in a zero-copy definition (9 needs A: ZeroCopy)
+UsesA(is) == \E j \in 1..Len(is) : is[j] \in 6..11
+UsesB(is) == \E j \in 1..Len(is) : is[j] = 12
+UsesN(is) == \E j \in 1..Len(is) : is[j] = 13
+
+FieldName(j, tuple) == IF tuple THEN NumS(j - 1) ELSE CASE j = 1 -> "a" [] j = 2 -> "b" [] j = 3 -> "c"
+RECURSIVE Code(_)
+Code(is) == IF is = <<>> THEN "" ELSE NumS(Head(is)) \o "_" \o Code(Tail(is))
+MkFields(is, tuple) == [j \in 1..Len(is) |-> GF(FieldName(j, tuple), FT(is[j]))]
+TParams(is) == (IF UsesA(is) \/ UsesB(is) THEN <<"A">> ELSE <<>>) \o (IF UsesB(is) THEN <<"B">> ELSE <<>>)
+CParams(is) == IF UsesN(is) THEN <<[name |-> "N", ck |-> "usize"]>> ELSE <<>>
+
+\* decoration of the parameters, chosen by a small index d: 0 plain, 1 bound on A, 2 default for the last
+\* type parameter, 3 where-clause
+Decorate(def, d) ==
+  IF def.tparams = <<>> THEN def
+  ELSE CASE d = 1 -> [def EXCEPT !.tbounds[1] = "core::fmt::Debug"]
+         \* a defaulted parameter must be trailing: only when there is no const parameter after it
+         [] d = 2 -> IF def.cparams = <<>> THEN [def EXCEPT !.tdefaults[Len(def.tparams)] = "u32"] ELSE def
+         [] d = 3 -> [def EXCEPT !.wherec = "A: Clone"]
+         [] OTHER -> def
+
+\* attribute variant v: 0 deep (no attribute), 1 deep_copy, 2 deep + repr(C), 3 zero_copy + repr(C),
+\* 4 zero_copy + repr(C) + repr(align(16))
+Attr(def, v) ==
+  CASE v = 1 -> [def EXCEPT !.da = TRUE]
+    [] v = 2 -> [def EXCEPT !.reprs = <<"C">>]
+    [] v = 3 -> [def EXCEPT !.zc = TRUE, !.reprs = <<"C">>,
+                            !.tbounds = [i \in 1..Len(def.tparams) |-> "epserde::traits::ZeroCopy"]]
+    [] v = 4 -> [def EXCEPT !.zc = TRUE, !.reprs = <<"C", "align(16)">>,
+                            !.tbounds = [i \in 1..Len(def.tparams) |-> "epserde::traits::ZeroCopy"]]
+    [] OTHER -> def
+ZcOk(is) == \A j \in 1..Len(is) : is[j] \in ZcFT
+
+GStruct(is, tuple, v, d) ==
+  LET base == DefStruct("S" \o (IF tuple THEN "t" ELSE "n") \o Code(is) \o "v" \o NumS(v) \o "d" \o NumS(d),
+                        FALSE, FALSE, <<>>, CParams(is), TParams(is), MkFields(is, tuple))
+  IN Decorate(Attr(base, v), IF v \in {3, 4} THEN 0 ELSE d)
+
+\* field index lists: all singles, pairs over a reduced pool, triples over a smaller one
+Singles == {<<i>> : i \in 1..16}
+Pairs == {<<i, j>> : i \in {2, 3, 6, 7, 12, 13}, j \in {1, 4, 6, 8, 9, 10}}
+Triples == {<<i, j, k>> : i \in {1, 6}, j \in {3, 6, 11}, k \in {2, 7, 12}}
+\* WellFormed: a second parameter only together with the first (rustc rejects an unused parameter), and a
+\* parameter is either *external* (the type of some field, ε-copied, replaced in the ε-copy type) or *internal*
+\* (only mentioned inside field types, left untouched): a definition using the same parameter both ways has no
+\* well-typed ε-copy type under the documented rule and is outside the supported grammar
+ExactA(x) == \E j \in 1..Len(x) : x[j] = 6
+MentionsA(x) == \E j \in 1..Len(x) : x[j] \in {7, 8, 9, 10, 11}
+WellFormedIdx(x) == (UsesB(x) => UsesA(x)) /\ ~(ExactA(x) /\ MentionsA(x))
+FieldLists == {x \in {<<>>} \cup Singles \cup Pairs \cup Triples : WellFormedIdx(x)}
+
+StructDefs ==
+  {GStruct(is, FALSE, v, d) : is \in FieldLists, v \in {0, 1}, d \in {0}}
+  \cup {GStruct(is, FALSE, 0, d) : is \in Pairs \cap FieldLists, d \in {1, 2, 3}}
+  \cup {GStruct(is, FALSE, 2, 0) : is \in Singles \cap FieldLists}
+  \cup {GStruct(is, FALSE, v, 0) : is \in {x \in FieldLists : ZcOk(x)}, v \in {3, 4}}
+  \cup {GStruct(is, TRUE, v, 0) : is \in ((Singles \cup {x \in Pairs : x[1] \in {2, 6, 12}}) \cap FieldLists), v \in {0}}
+  \cup {GStruct(is, TRUE, 3, 0) : is \in {x \in Singles \cup Pairs : ZcOk(x)}}
+
+\* enum variants: kinds "unit", "tuple", "named" with field lists
+GV(n, vk, is) == GVar(n, vk, MkFields(is, vk = "tuple"))
+VariantPool == << GV("U", "unit", <<>>), GV("T", "tuple", <<6>>), GV("P", "tuple", <<2, 7>>), GV("N", "named", <<3>>),
+                  GV("M", "named", <<6, 12>>), GV("Z", "tuple", <<1>>), GV("Q", "named", <<2, 16>>),
+                  GV("H", "tuple", <<9, 2>>), GV("O", "tuple", <<8>>), GV("C", "named", <<13>>) >>
+VarIdx(vs) == Cat([j \in 1..Len(vs) |-> <<vs[j]>>])
+EnumFieldIdx(vs) == Cat([j \in 1..Len(vs) |-> [k \in 1..Len(VariantPool[vs[j]].fields) |->
+                      CHOOSE x \in 1..16 : FT(x) = VariantPool[vs[j]].fields[k].g]])
+GEnum(vs, v) ==
+  LET is == EnumFieldIdx(vs)
+      base == DefEnum("E" \o Code(vs) \o "v" \o NumS(v), FALSE, FALSE, <<>>, CParams(is), TParams(is),
+                      [j \in 1..Len(vs) |-> VariantPool[vs[j]]])
+  IN Attr(base, v)
+VarLists == {<<i>> : i \in 1..10} \cup {<<i, j>> : i \in {1, 2, 5}, j \in {3, 4, 6, 7, 9}}
+            \cup {<<1, 2, 4>>, <<5, 1, 3>>, <<2, 10, 1>>, <<1, 6, 7>>, <<8, 1, 6>>}
+EnumZcOk(vs) == ZcOk(EnumFieldIdx(vs))
+EnumOk(vs) == WellFormedIdx(EnumFieldIdx(vs))
+EnumDefs ==
+  {GEnum(vs, v) : vs \in {x \in VarLists : EnumOk(x)}, v \in {0, 1}}
+  \cup {GEnum(vs, 3) : vs \in {x \in VarLists : EnumZcOk(x)}}
+  \* bounds, defaults and where-clauses on the parameters of enums
+  \cup {LET e == GEnum(vs, 0) IN Decorate([e EXCEPT !.name = e.name \o "d" \o NumS(d)], d)
+        : vs \in {<<2>>, <<5>>, <<1, 2, 4>>, <<5, 1, 4>>}, d \in {1, 2, 3}}
+
+GrammarDefs == StructDefs \cup EnumDefs
+
+\* instantiations: every definition with each choice of arguments it admits
+ArgsFor(def) ==
+  LET zc == def.zc
+      as == IF zc THEN {U32, Inst(D_ZPad, <<>>, <<>>)} ELSE {U32, Vec(U64), StringT}
+      bs == IF zc THEN {U8} ELSE {U8, Vec(U16)}
+  IN IF Len(def.tparams) = 0 THEN {<<>>}
+     ELSE IF Len(def.tparams) = 1 THEN {<<a>> : a \in as}
+     ELSE {<<a, b>> : a \in as, b \in bs}
+\* Array(2, A) and Vec<A> fields need an element that can be one; Phantom needs nothing
+InstOk(t) == TRUE
+GrammarTypes ==
+  UNION {{Inst(d, targs, [i \in 1..Len(d.cparams) |-> n]) : targs \in ArgsFor(d), n \in (IF d.cparams = <<>> THEN {0} ELSE {0, 3})}
+         : d \in GrammarDefs}
+
+---------------------------------------------------------------------------
 (* The universe of C04: every core definition with its near-miss mutants,   *)
 (* instantiated, and wrapped in the constructors whose hashes recurse.      *)
-CoreDefSet == {CoreDefs[i] : i \in 1..Len(CoreDefs)}
 MutDefs == UNION {NearMiss(d) : d \in CoreDefSet}
 InstD(def) == Inst(def, [i \in 1..Len(def.tparams) |-> U16], [i \in 1..Len(def.cparams) |-> 3])
 MutLeaves == {InstD(d) : d \in MutDefs \cup CoreDefSet} \cup {ZCn(4), DCn(3), ZPh(U32), G(U32), G2(U32)}
